@@ -114,12 +114,13 @@ func decodeLine(line []byte) (*Entry, error) {
 	e.NewHash = plumbing.NewHash(newHashStr)
 	line = line[spaceIdx+1:]
 
-	// Split on tab to separate signature from message
+	// Split on the first tab after the identity to separate signature from
+	// message: Git keeps tabs inside names and emails, never '>'.
 	sigBytes := line
-	before, after, ok := bytes.Cut(line, []byte{'\t'})
-	if ok {
-		sigBytes = before
-		e.Message = string(after)
+	identEnd := max(bytes.IndexByte(line, '>'), 0)
+	if tab := bytes.IndexByte(line[identEnd:], '\t'); tab != -1 {
+		sigBytes = line[:identEnd+tab]
+		e.Message = string(line[identEnd+tab+1:])
 	}
 
 	// Parse signature: Name <email> timestamp timezone
